@@ -127,7 +127,23 @@ func HarnessC01Numeric() {
 // F2b: multipleOf and numeric enum on finite-domain numbers
 func HarnessC01MultipleOfEnum() {
 	s := spec.Schema{}
-	switch verifChoose(3) {
+	switch verifChoose(4) {
+	case 3: // type integer (or a list holding it) next to integral and non-integral bounds / factors
+		if verifBool() {
+			s.Type = spec.StringOrArray{"integer"}
+		} else {
+			s.Type = spec.StringOrArray{"integer", "string"}
+		}
+		switch verifChoose(3) {
+		case 0:
+			s.Maximum = ptrF(verifPickFloat(2, 2.5, 10.5))
+			s.ExclusiveMaximum = verifBool()
+		case 1:
+			s.Minimum = ptrF(verifPickFloat(-0.5, 0, 1.5))
+			s.ExclusiveMinimum = verifBool()
+		default:
+			s.MultipleOf = ptrF(verifPickFloat(0.5, 1.5, 2))
+		}
 	case 0:
 		s.MultipleOf = ptrF(verifPickFloat(0.5, 1, 2, 3))
 	case 1:
